@@ -1926,6 +1926,7 @@ bool DGXMLScanner::scanStartTagNS(bool& gotData)
                 elemDecl->getElementName()->getPrefix()
                 , ElemStack::Mode_Element
             );
+        fElemStack.setCurrentURI(uriId);
 
         fDocHandler->startElement
         (
